@@ -162,14 +162,11 @@ def accs_fields(fields):
 def float_vec(file, V, fields, tier):
     p = f"{V.lower()}_f32"
     n = DIM[V]
-    big = n >= 32
-    emit(file, f"lift_inv_uf{'_big' if big else ''}!{{c20_{p}_inv_uf, {V}<f32> ({fields}), uf{ufcap(n)}_seed, uf{ufcap(n)}_f32_inv}}")
+    # (a variant reading the seeded values directly instead of calling the stub on the scalar side was tried: 25x slower in the SAT solver)
+    emit(file, f"lift_inv_uf!{{c20_{p}_inv_uf, {V}<f32> ({fields}), uf{ufcap(n)}_seed, uf{ufcap(n)}_f32_inv}}")
     meta(f"c20_{p}_inv_uf", tier, f"Inv::inv on {V}<f32>: r.i bit-equal to scalar Inv::inv(a.i) for all i",
          f"all {V}<f32>: every element any f32 bit pattern" + UF_NOTE, timeout=tmo(V))
-    if big:
-        emit(file, f"approx_uf_big!{{c20_{p}_abs_diff_eq_uf, c20_{p}_relative_eq_uf, c20_{p}_ulps_eq_uf, {V}<f32> ({fields}), {ufstubs(n)}}}")
-    else:
-        emit(file, f"approx_uf!{{c20_{p}_abs_diff_eq_uf, c20_{p}_relative_eq_uf, c20_{p}_ulps_eq_uf, {V}<f32>, any_vec!({V}<f32> ({fields})), [{accs_fields(fields)}], {ufstubs(n)}}}")
+    emit(file, f"approx_uf!{{c20_{p}_abs_diff_eq_uf, c20_{p}_relative_eq_uf, c20_{p}_ulps_eq_uf, {V}<f32>, any_vec!({V}<f32> ({fields})), [{accs_fields(fields)}], {ufstubs(n)}}}")
     for m, extra in (("abs_diff_eq", "epsilon any f32"), ("relative_eq", "epsilon, max_relative any f32"), ("ulps_eq", "epsilon any f32, max_ulps any u32")):
         meta(f"c20_{p}_{m}_uf", tier, f"{m} on {V}<f32> == conjunction over the {n} element pairs of scalar f32 {m}",
              f"all pairs of {V}<f32> (any f32 bit patterns incl. NaN/inf), {extra}" + UF_NOTE, timeout=tmo(V))
